@@ -22,6 +22,8 @@ from .absint import Interp
 from .report import Finding
 
 WHAT = {
+    "Z8": "a switch pair whose help names one side 'the default behaviour' really defaults to that side (Configuration.defaults or option order)",
+    "Z9": "both config readers store every option under its destination (file tags under config_tags), typed by its action, and resolve paths once against the config file's directory",
     "Z1": "precedence by construction: load config files into defaults, set_defaults(defaults), then parse_args",
     "Z2": "OPTIONS table consistent: negative options pair with a positive one of the same dest; both config readers handle the same action kinds, rename tags, resolve relative to the config file",
     "Z4": "command-line defines are applied after (over) file userdata; -D splits at the first '=' and a bare name means true",
@@ -157,16 +159,6 @@ def check_options_table(chk, ix):
                   "in this file format" % (rn, missing))
         else:
             chk.ok("Z2", {"reader": rn, "handles": sorted(acts), "schema_actions": sorted(schema_actions)}, nontrivial_key=rn)
-        src = unparse(f.node)
-        chk.instance("Z2")
-        ok_tags = "'config_tags'" in src and "dest == 'tags'" in src
-        ok_dir = "os.path.dirname(path)" in src and "format_outfiles_coupling(this_config, config_dir)" in src
-        if ok_tags and ok_dir:
-            chk.ok("Z2", {"reader": rn, "renames": "tags -> config_tags", "paths": "coupled/resolved with dirname(path)"}, nontrivial_key=rn + ":glue")
-        else:
-            _fail(chk, "Z2", f, "%s glue tags=%s dir=%s" % (rn, ok_tags, ok_dir),
-                  "%s %s" % (rn, "does not rename tags to config_tags" if not ok_tags else
-                             "does not resolve paths/outfiles against the config file's directory"))
 
 
 def check_outfiles_coupling(chk, ix):
@@ -339,3 +331,161 @@ def check_userdata(chk, ix):
         chk.ok("Z4", {"parse_user_define": "split('=', 1); bare name -> 'true'"}, nontrivial_key="parse")
     else:
         _fail(chk, "Z4", pf, "split=%s bare=%s" % (ok, bare), "parse_user_define does not split at the first '=' only / does not map a bare name to 'true'")
+
+
+def check_readers_by_evaluation(chk, ix):
+    """Z9: both config readers, evaluated on a config token holding one option of every action kind: each value is stored
+    under the option's destination (tags: config_tags), with the value of its kind, and paths are coupled afterwards."""
+    chk.rule("Z9", WHAT["Z9"])
+    triples = [("tags", "append", None), ("name", "append", None), ("color", "store", None), ("dry_run", "store_true", None),
+               ("stage", "store", None), ("format", "append", None)]
+    raw = {"tags": ["@a", "not @b"], "name": ["n1"], "color": "always", "dry_run": True, "stage": "develop", "format": ["plain"]}
+    want = {"config_tags": ["@a", "not @b"], "name": ["n1"], "color": "always", "dry_run": True, "stage": "develop", "format": ["plain"]}
+    for rn in ("read_toml_config", "read_configparser"):
+        f = ix.func("behave.configuration:" + rn)
+        coupled = []
+        st = State()
+        st.frames = []
+
+        def lift(v):
+            return st.alloc(HObj("list", kind="list", items=list(v))) if isinstance(v, list) else v
+        behave_tbl = st.alloc(HObj("dict", kind="dict", items=[(k, lift(v)) for k, v in raw.items()], label="[tool.behave]"))
+        tool = st.alloc(HObj("dict", kind="dict", items=[("behave", behave_tbl)], label="tool"))
+        cfgdict = st.alloc(HObj("dict", kind="dict", items=[("tool", tool)], label="pyproject"))
+        cp = st.alloc(HObj("ConfigParserTok", {}, open=True, label="ConfigParser"))
+
+        def cp_get(i, s_, a, k, n):
+            v = raw[a[2]]
+            return [(s_, "val", "\n".join(v) if isinstance(v, list) else v)]
+        stubs = {"@with": "transparent",
+                 "configfile_options_iter": lambda i, s_, a, k, n: [(s_, "val", tuple(triples))],
+                 "format_outfiles_coupling": lambda i, s_, a, k, n: (coupled.append(a[1] if len(a) > 1 else None), [(s_, "val", None)])[1],
+                 "_values_to_str": lambda i, s_, a, k, n: [(s_, "val", a[0])],
+                 "open": lambda i, s_, a, k, n: [(s_, "val", "FILE")],
+                 "tomllib.load": lambda i, s_, a, k, n: [(s_, "val", cfgdict)], "json.dumps": lambda i, s_, a, k, n: [(s_, "val", a[0])],
+                 "json.loads": lambda i, s_, a, k, n: [(s_, "val", a[0])],
+                 "os.path.dirname": lambda i, s_, a, k, n: [(s_, "val", "CONFIG-DIR")],
+                 "ConfigParser": lambda i, s_, a, k, n: [(s_, "val", cp)],
+                 "ConfigParserTok.read": lambda i, s_, a, k, n: [(s_, "val", None)],
+                 "ConfigParserTok.get": cp_get,
+                 "ConfigParserTok.getboolean": lambda i, s_, a, k, n: [(s_, "val", bool(raw[a[2]]))],
+                 "ConfigParserTok.has_section": lambda i, s_, a, k, n: [(s_, "val", False)]}
+        it = Interp(ix, stubs=stubs, name=rn)
+        it.int_sat = 100
+        it.list_cap = 100
+        for nm in ("tomllib", "tomli"):
+            it.stubs[nm + ".load"] = stubs["tomllib.load"]
+        outs = it.call_function(st, f, ["some/dir/behave.cfg"], {}, None)
+        chk.absorb(it)
+        outs = [o for o in outs if o[1] == "val"]
+        if not outs or not all(isinstance(o[2], Ref) for o in outs):
+            raise AnalysisError("%s not evaluable on the config token: %r" % (rn, [(k, v) for _, k, v in outs][:3]))
+        gots = []
+        for (s2, _, res) in outs:
+            g_ = {}
+            for k, v in s2.obj(res).items:
+                g_[k] = list(s2.obj(v).items) if isinstance(v, Ref) and s2.obj(v).kind == "list" and s2.obj(v).items is not None else v
+            if g_ not in gots:
+                gots.append(g_)
+        if len(gots) != 1:
+            raise AnalysisError("%s yields %d different results on one config token: %r" % (rn, len(gots), gots))
+        got = gots[0]
+        for key, val in sorted(want.items()):
+            chk.instance("Z9")
+            if got.get(key, KeyError) == val:
+                chk.ok("Z9", {"reader": rn, "stored": {key: val}}, nontrivial_key=(rn, key))
+            else:
+                _fail(chk, "Z9", f, "%s: %s -> %r" % (rn, key, got.get(key, "missing")),
+                      "%s given %r stores %r under %r; expected %r (every option under its destination, file tags under config_tags)" % (
+                          rn, raw, got.get(key, "nothing"), key, val))
+        chk.instance("Z9")
+        extra = sorted(k for k in got if k not in want and k not in ("more_formatters", "more_runners", "userdata"))
+        if extra or coupled != ["CONFIG-DIR"]:
+            _fail(chk, "Z9", f, "%s: extra keys %s, coupling %s" % (rn, extra, coupled),
+                  "%s also stores %s / resolves paths against %s (expected nothing else, paths resolved once against the config file's "
+                  "directory)" % (rn, extra, coupled))
+        else:
+            chk.ok("Z9", {"reader": rn, "no other keys": True, "paths resolved against": "dirname(path)"}, nontrivial_key=(rn, "rest"))
+
+
+def check_user_define_concrete(chk, ix):
+    """Z4 on concrete -D texts: every documented schema of parse_user_define (constant folding)."""
+    chk.rule("Z4", WHAT["Z4"])
+    f = ix.func("behave.userdata:parse_user_define")
+    cases = [("name=value", ("name", "value")), ("name", ("name", "true")), ('"name=value"', ("name", "value")), ("'name=value'", ("name", "value")),
+             ('name="value"', ("name", "value")), ("name='value'", ("name", "value")), ("  name = value  ", ("name", "value")),
+             ('person = "Alice"', ("person", "Alice")), ('count = "42"', ("count", "42")), ('person=" Alice "', ("person", " Alice ")),
+             ("url=http://x/?a=b", ("url", "http://x/?a=b")), ("empty=", ("empty", "")), ("a=b=c", ("a", "b=c")), ("flag ", ("flag", "true"))]
+    it = Interp(ix, name="parse_user_define")
+    it.int_sat = 1000
+    it.list_cap = 100
+    for text, want in cases:
+        st = State()
+        st.frames = []
+        outs = it.call_function(st, f, [text], {}, None)
+        chk.instance("Z4")
+        if len(outs) != 1 or outs[0][1] != "val":
+            raise AnalysisError("parse_user_define not foldable on %r: %r" % (text, [(k, v) for _, k, v in outs][:3]))
+        got = outs[0][2]
+        if isinstance(got, Ref):
+            got = tuple(outs[0][0].obj(got).items)
+        if got == want:
+            chk.ok("Z4", {"-D": text, "name": want[0], "value": want[1]}, nontrivial_key=("define", text))
+        else:
+            _fail(chk, "Z4", f, "%r -> %r" % (text, got), "the command-line define %r is read as %r; the documented schemas give %r" % (text, got, want))
+    chk.absorb(it)
+
+
+def check_documented_defaults(chk, ix):
+    """Z8: where a switch pair (--x / --no-x) documents one side as 'the default behaviour', the effective default of
+    the shared destination is that side.  Effective default: Configuration.defaults[dest] when present, otherwise what
+    argparse takes from the FIRST option of that destination in the table (store_false -> True, store_true -> False)."""
+    chk.rule("Z8", WHAT["Z8"])
+    mod = ix.module("behave.configuration")
+    opts = _options(ix)
+    cc = ix.cls("behave.configuration:Configuration")
+    lc = cc.lookup_const("defaults")
+    defaults = None
+    if lc is not None and isinstance(lc[1], ast.Call) and unparse(lc[1].func) == "dict":
+        defaults = {}
+        for k in lc[1].keywords:
+            try:
+                defaults[k.arg] = ix.fold(k.value, lc[0].module)
+            except NotConst:
+                defaults[k.arg] = ("expr", unparse(k.value))
+    elif lc is not None and isinstance(lc[1], ast.Dict):
+        defaults = {}
+        for k, v in zip(lc[1].keys, lc[1].values):
+            try:
+                defaults[ix.fold(k, lc[0].module)] = ix.fold(v, lc[0].module)
+            except NotConst:
+                pass
+    if not isinstance(defaults, dict) or len(defaults) < 10:
+        raise AnalysisError("anchor missing: Configuration.defaults literal")
+    by_dest = {}
+    for fixed, kws in opts:
+        if kws.get("action") in ("store_true", "store_false"):
+            by_dest.setdefault(_dest(fixed, kws), []).append((fixed, kws))
+    n = 0
+    for dest, rows in sorted(by_dest.items()):
+        documented = [r for r in rows if isinstance(r[1].get("help"), str) and "default behaviour" in " ".join(r[1]["help"].split()).lower()]
+        if len(rows) < 2 or not documented:
+            continue
+        n += 1
+        chk.instance("Z8")
+        fixed, kws = documented[0]
+        doc_value = kws["action"] == "store_true"
+        if dest in defaults:
+            eff, src = defaults[dest], "Configuration.defaults"
+        else:
+            first = rows[0][1]
+            eff = first["default"] if "default" in first else (first["action"] == "store_false")
+            src = "the first option of the table for this destination (%s)" % "/".join(rows[0][0])
+        if eff is doc_value or eff == doc_value:
+            chk.ok("Z8", {"dest": dest, "documented default": "/".join(fixed), "effective default": eff, "from": src}, nontrivial_key=dest)
+        else:
+            chk.fail(Finding("Z8", "behave.configuration:OPTIONS", "%s: documented %s, effective %r" % (dest, "/".join(fixed), eff),
+                             "the help of %s says it is the default behaviour (%s=%s), but the effective default of %s is %r, taken from %s" % (
+                                 "/".join(fixed), dest, doc_value, dest, eff, src), file=mod.relpath, line=1))
+    if n < 6:
+        raise AnalysisError("anchor drift: only %d switch pairs with a documented default found (8 confirmed)" % n)
